@@ -9,7 +9,8 @@ CLAIMED = {
         design='4.1 and 9.5',
         text='Kernel of value-preserving rewrites. Unbounded deductive proof (all integers incl. infinite ranges): the range-guarded integer rewrites Mod/Minimum/Maximum/InRange/NormDim._simplified, '
              'Power._simplified (p in {0,1,2}), Multiply unit / minus-one rules, Array._const_uniform, Power._power for integer exponents and for a uniform even constant float exponent, '
-             'Multiply._optimized_for_numpy (x*sign(x) -> |x|), LogicalNot._simplified: a returned replacement evaluates bit-exactly to the original wherever the original is defined. '
+             'Multiply._optimized_for_numpy (x*sign(x) -> |x|), LogicalNot._simplified: a returned replacement evaluates bit-exactly to the original wherever the original is defined; and, because these rewrites consult the integer ranges, every '
+             '_intbounds_impl rule of C06 is re-run as an obligation of C01 (range soundness). '
              'BOUNDED (labelled; concrete rank <= 3, symbolic axis lengths, elements an uninterpreted function of the index tuple): the axis-moving swap protocols Ravel._takediag, Transpose._takediag, '
              'InsertAxis._take, Inflate._take and a few configurations of 20 further _take/_takediag/_unravel/_power/_sign rules, and Multiply._add (<= 3 factors): the replacement has the rank, '
              'every announced length and every element the protocol promises. The real rule bodies AND the real helpers (_take, _takediag, unravel, ravel, insertaxis, transpose, _inflate, Transpose._end ...) are executed.',
@@ -23,7 +24,7 @@ CLAIMED = {
              'a theorem HasDerivAt (numpy meaning read from _compile_expression) (deriv lambda translated mechanically from its AST) is generated from the current source on every run and checked by Lean, '
              'for all real arguments in the domain of differentiability. (b) BOUNDED (fixed small shapes, all entries symbolic reals; labelled): the real bodies of the array-level rules '
              'InsertAxis, Transpose, Sum, TakeDiag, Take, Inflate, Diagonalize, Ravel, Unravel, Multiply, Add, Product, Inverse, Determinant, Power (constant exponents incl. 0, and variable exponent), '
-             'Legendre, Pointwise/Holomorphic (chain-rule plumbing with abstract partials), IntToFloat, Sign ._derivative are executed on tensors of symbols; the result must equal, entry by entry, the '
+             'Legendre, Choose, Guard, Pointwise/Holomorphic (chain-rule plumbing with abstract partials), IntToFloat, Sign, Argument, WithDerivative, the Array default ._derivative and the derivative() driver (zero rule for integer targets / independent functions, memo, shape assertion) are executed on tensors of symbols; the result must equal, entry by entry, the '
              'mechanically differentiated (sympy.diff) dense meaning of the node, and the rule must be DEFINED wherever the node is differentiable (catches 0*x**-1); polynomial/rational identities are discharged by z3.',
         note='Outside: Polyval, Choose, Orthonormal, LoopSum/LoopConcatenate, TransformCoords, WithDerivative targets, the derivative() driver memo, function._Derivative, repeated differentiation beyond what the '
              'rules compose to; ArcTan2 outside y>0, Sinc. Trusted: Lean kernel + Mathlib, the AST->Lean translator, numpy functions = real functions, floats = reals; for (b) the dense numpy meaning of the IR '
@@ -92,23 +93,27 @@ CLAIMED = {
         technique='contract-based deductive verification: ast->z3 on the real method bodies (harness contracts for compositions, objects of real classes executed from source); bounded native enumeration for the connectivity tables'),
     'C11': dict(
         design='4.11 and 9.5',
-        text='Lookup kernel: for IndexTransforms, MaskedTransforms, ReorderedTransforms, UniformDerivedTransforms, DerivedTransforms and (bounded: 3 items) ChainedTransforms a harness composes the REAL '
+        text='Lookup kernel: for IndexTransforms, MaskedTransforms, ReorderedTransforms, UniformDerivedTransforms, DerivedTransforms, EmptyTransforms and (bounded) ChainedTransforms, StructuredTransforms (<= 3 axes, <= 2 refinements, axis values symbolic), PlainTransforms a harness composes the REAL '
              '__getitem__ and index_with_tail bodies and proves index_with_tail(self[i] + tail) == (i, tail) for every valid i, table and tail (parent abstract with the same contract); Axis.map/unmap mutual inverses. '
              'Chain rewriting, unbounded (any chain length, loop invariants on the real while/for bodies, composition as a fold in an abstract monoid): transform.canonical / uppermost / promote keep the length, the composed map '
              'and the outer dimensions, stay in range at every index, and end canonical / uppermost / with the documented head/tail split, GIVEN the item-level swap contract. That swap contract is itself checked (bounded, native '
              'exhaustive in exact Fraction arithmetic on the real matrices): SimplexEdge/TensorEdge1/TensorEdge2/ScaledUpdim.swapup/swapdown, Updim.swapdown over all adjacent pairs of chains of <= 3 child/edge transforms of line, '
-             'square, cube, triangle, tetrahedron, prism.',
-        note='Trusted: pyvc executor; numpy.searchsorted/argsort/cumsum axioms; L-MONO; monoid fold lemmas (cross-checked on random matrices). Assumed: A-NF, A-DIM, well-formed input chains. Outside / not built: '
-             'PlainTransforms, StructuredTransforms, Transforms.index/contains dispatch, TransformIndex/TransformCoords evaluation, locate(), interfaces (a seeded _asaffine defect is missed for that reason).',
+             'square, cube, triangle, tetrahedron, prism. '
+             'Array indexing, unbounded: the integer-array branch of Transforms.__getitem__ (item k of the result is self[index[k]] for every accepted index array, rejected exactly for out-of-range or repeated indices); Transforms.index/contains; '
+             '_Uniform/_Take/_Repeat/_Product.get of the elementseq/pointsseq containers. Bounded native enumerations: slice/mask/array forms of every transform-sequence class, transformseq.chain, take/compress/repeat/product/chain of the containers (incl. chained take()).',
+        note='Trusted: pyvc executor; numpy.searchsorted/argsort/cumsum axioms; L-MONO; monoid fold lemmas (cross-checked on random matrices). Assumed: A-NF, A-DIM, well-formed input chains. One defect repaired (chained take() order). Outside / not built: '
+             'StructuredTransforms with symbolic nrefine, TransformIndex/TransformCoords evaluation, locate(), interfaces (a seeded _asaffine defect is missed for that reason).',
         technique='contract-based deductive verification: harness contracts over real method bodies, loop invariants with an abstract monoid for chain rewriting (ast->z3, E-matching); bounded native enumeration for the item-level swap tables'),
     'C12': dict(
         design='4.12 and 9.5',
         text='Dof bookkeeping kernel, unbounded unless noted: util.merge_index_map (union-find; four loop invariants, ghost representatives, no over-merging, termination of the chase); Basis._computed_support (two nested loop '
              'invariants: every support strictly increasing and e in support[d] <=> d in get_dofs(e), both directions); function._int_or_vec and its _dof/_ielem wrappers (index normalisation, exact IndexError conditions, result = '
              'strictly increasing union of f over the selected indices); PlainBasis / DiscontBasis (contiguous blocks; get_support exact inverse) / MaskedBasis (same selection on dofs and coefficient rows; get_support) / '
-             'PrunedBasis.f_dofs_coeffs; numeric.invmap; StructuredBasis.f_dofs_coeffs (bounded 1-3 axes: dof = sum_k ((start_k[e_k]+p_k) mod N_k)*stride_k, coefficient rows in the same order).',
+             'PrunedBasis.f_dofs_coeffs and get_support; numeric.invmap, sorted_index, sorted_contains; the constructors of Plain/Discont/Masked/Pruned/StructuredBasis establish the class invariants the method contracts use; StructuredBasis.f_dofs_coeffs (bounded 1-3 axes) and '
+             'get_support (1-2 axes, loop invariant over the periodic images). Bounded native enumerations: get_edge_dofs (6 reference types, degree 1-3), _basis_c0_structured (two local functions share a dof exactly when their Lagrange nodes coincide), '
+             'StructuredTopology._basis_spline dof numbering and multiplicity-expanded local knot vectors (1260 cases), _DiscontinuousPartitionBasis (one dof per distinct (part, parent dof) pair).',
         note='Coefficient tables are tracked as WHICH stored rows are combined, not polynomial values. Basis constructors (class invariants assumed), StructuredBasis.get_support, PrunedBasis.get_support, '
-             '_basis_c0_structured, get_edge_dofs, spline knot logic, partition of unity and continuity are OUTSIDE (a seeded periodic-spline defect is missed for that reason). One defect found here was repaired (_int_or_vec single item).',
+             'spline coefficient VALUES, partition of unity and continuity are OUTSIDE. One recorded KNOWN FINDING (_basis_c0_structured with a periodic direction exactly two elements wide). One defect found here was repaired (_int_or_vec single item).',
         technique='contract-based deductive verification: loop invariants + ghost state, ast->z3 on the real bodies; denotation table for the evaluable nodes the bases build'),
     'C13': dict(
         design='4.13 and 9.5',
@@ -132,12 +137,14 @@ CLAIMED = {
         technique='contract-based deductive verification: ast->z3 with loop invariants, yield hooks and uninterpreted numerics on the real bodies; bounded native grid for the float corner cases of NormBased'),
     'C15': dict(
         design='4.15 and 9.5',
-        text='Validation kernel, arrays of any length: matrix.assemble_csr returns normally only if exactly the well-formed CSR triple it was given is handed to the backend and raises only for input that is not well-formed; '
-             'matrix.assemble_coo (by composition with the compress_indices contract proved in C05: accepted exactly for valid COO input, row pointer is the row-pointer form of the row indices); matrix.diag / matrix.empty hand on '
-             'well-formed triples denoting the intended matrix; Matrix.diagonal (loop invariant: diag[r] = stored (r,r) entry or 0); Matrix.rowsupp (supp[r] <=> a stored entry of row r exceeds tol); Matrix.__reduce__ (argument order, ncols).',
-        note='assemble_block_csr (needs a chunk-list value model), the numpy/scipy/MKL backends (2-D array model), arithmetic, export and pickling values are OUTSIDE. Three defects found here were repaired (repeated columns, '
-             'negative columns, 0-row matrices in the numpy backend). Trusted: numpy externals as axioms, L-MONO, L-ROW, int64 as mathematical integers.',
-        technique='contract-based deductive verification: ast->z3 VC generation (quantified array obligations) on the real function bodies, callee contracts for composition'),
+        text='Validation and bookkeeping kernel. Unbounded (arrays of any length): matrix.assemble_csr returns normally only if exactly the well-formed CSR triple it was given is handed to the backend and raises only for input that is not well-formed; '
+             'matrix.assemble_coo (composition with the compress_indices contract of C05); matrix.diag / empty / eye; the deprecated matrix.assemble argument order; Matrix.diagonal (loop invariant), Matrix.rowsupp, Matrix.__reduce__, '
+             'Matrix.__sub__/__rmul__/__truediv__ (right sign / inverse), Matrix.submatrix cache guard (the returned object was built for masks equal to the requested rows AND cols). BOUNDED (block grids 1x1 .. 2x2, 3x1, 1x3; block contents '
+             'symbolic arrays of symbolic length; loop invariant over the rows): matrix.assemble_block_csr hands a well-formed triple to assemble_csr that denotes the block matrix (entry k of block (R,C), row r, lands in global row rowoffset(R)+r at '
+             'column coloffset(C)+col), on the fast path and the interleaving path, AssertionError exactly for inconsistent blocks.',
+        note='The numpy/scipy/MKL backends themselves (2-D array model), arithmetic inside the backends, export and pickling VALUES are OUTSIDE. Four defects found here were repaired (repeated columns, negative columns, 0-row matrices in the numpy backend; '
+             'rconstrain dtype under C14). Trusted: numpy externals as axioms, chunk-list model of Python lists of arrays (pyvc/chunks.py), L-MONO, L-ROW, int64 as mathematical integers.',
+        technique='contract-based deductive verification: ast->z3 VC generation (quantified array obligations) on the real function bodies, callee contracts for composition; bounded block-grid unrolling for assemble_block_csr'),
     'C16': dict(
         design='4.16 and 9.5',
         text='Sequential kernel (no schedules): parallel.range.__next__ under its lock; parallel._wait / _fork (bounded nprocs = 3: parent waits for every child and raises if any failed, kills children and re-raises when the block raises; '
